@@ -192,3 +192,31 @@ def to_markup(doc, rnd):
         else:
             out.append(w.replace("&", "&amp;").replace("<", "&lt;"))
     return "<p>" + " ".join(out) + "</p>"
+
+
+NAMED = [
+    ("Foo v. Bar, 1 U.S. 1 (1999)", ["Bar", "Foo"]),
+    ("Bell Atlantic Corp. v. Twombly, 550 U.S. 544, 570 (2007)", ["Twombly"]),
+    ("Shapiro v. Thompson, 394 U. S. 618", ["Thompson", "Shapiro"]),
+    ("Holmes v. Chase, 12 F.3d 345, 347-48 (2d Cir. 1993) (holding that x)", ["Holmes", "Chase"]),
+    ("Roe v. Wade, 410 U.S. 113, 93 S. Ct. 705, 35 L. Ed. 2d 147 (1973)", ["Wade", "Roe"]),
+    ("Smith v. Jones (1990) 50 Cal.3d 100", ["Jones", "Smith"]),
+    ("Gilmer v. Olcott, 4 Johns. 5 (N.Y. 1809)", ["Gilmer", "Olcott"]),
+    ("State v. Wingler, 25 N.J. 161 (1957)", ["Wingler"]),
+]
+REF_FORMS = ["{n} at 12", "See {n} at 15.", "In {n}, the court held so", "{n}, 410 U.S., at 120", "{n} at 127 S.Ct. 1955",
+             "State v. {n} at 175", "({n} at 3)", "{n} at 9, 2 F.2d 2 (2005)", "{n}, supra, at 4", "Id. at 5; {n} at 6"]
+
+
+def reference_docs():
+    """documents in which later text refers to an earlier full case citation by a party name: every named
+    fragment x every reference form (own name), and pairs of named fragments with crossed references"""
+    out = []
+    for frag, names in NAMED:
+        for n in names:
+            for f in REF_FORMS:
+                out.append(f"{frag}. {f.format(n=n)}.")
+    for (fa, na), (fb, nb) in itertools.permutations(NAMED, 2):
+        for f1, f2 in (("{n} at 12", "{n} at 127 S.Ct. 1955"), ("See {n} at 15.", "{n}, 410 U.S., at 120"), ("State v. {n} at 175", "{n} at 9, 2 F.2d 2 (2005)")):
+            out.append(f"{fa}. {f1.format(n=na[0])}; {fb}. {f2.format(n=nb[0])} and {f1.format(n=na[-1])}, {f2.format(n=nb[-1])}.")
+    return out
